@@ -21,11 +21,11 @@ impl<A: Actor> Receiver<A> {
         pin_mut!(stop, message);
 
         select_biased! {
+            _ = stop => MailboxEvent::Stop,
             message = message => match message {
                 Ok(message) => MailboxEvent::Message(message),
                 Err(_) => MailboxEvent::Stop,
             },
-            _ = stop => MailboxEvent::Stop,
         }
     }
 }
